@@ -282,7 +282,8 @@ func init() {
 	geomCase("encoding/wkt.Marshal", anyGeom, func(g geom.T) string {
 		s, err := wkt.Marshal(g)
 		s2, err2 := wkt.Marshal(g, wkt.EncodeOptionWithMaxDecimalDigits(2))
-		return obsErr(s, err) + obsErr(s2, err2)
+		s3, err3 := wkt.Marshal(g, c17WktDigits)
+		return obsErr(s, err) + obsErr(s2, err2) + obsErr(s3, err3)
 	})
 	// an encoder value that lives on between calls (used by one caller at a time): a call that failed
 	// part-way leaves nothing behind, so each text equals the one a fresh encoder gives
@@ -302,7 +303,9 @@ func init() {
 	geomCase("encoding/geojson.Marshal", anyGeom, func(g geom.T) string {
 		b, err := geojson.Marshal(g)
 		b2, err2 := geojson.Marshal(g, geojson.EncodeGeometryWithBBox(), geojson.EncodeGeometryWithMaxDecimalDigits(3))
-		return obsErr(string(b), err) + obsErr(string(b2), err2)
+		// option values made once and shared by every caller (they are values, not workspaces)
+		b3, err3 := geojson.Marshal(g, c17GjBBox, c17GjDigits)
+		return obsErr(string(b), err) + obsErr(string(b2), err2) + obsErr(string(b3), err3)
 	})
 	geomCase("encoding/geojson.(*Feature).MarshalJSON", anyGeom, func(g geom.T) string {
 		f := &geojson.Feature{ID: "f", Geometry: g, BBox: g.Bounds(), Properties: map[string]interface{}{"k": 1.5}}
@@ -951,6 +954,9 @@ func c17SetSRIDs(g geom.T, r *Rng) {
 	}
 }
 
+var c17GjBBox = geojson.EncodeGeometryWithBBox()
+var c17GjDigits = geojson.EncodeGeometryWithMaxDecimalDigits(4)
+var c17WktDigits = wkt.EncodeOptionWithMaxDecimalDigits(3)
 var c17Enc = wkt.NewEncoder()
 var c17EncMu sync.Mutex
 var c17EncDrift int
